@@ -242,6 +242,8 @@ def render_tu(st, tid):
     terms = list(t['inc'])
     if st.get('pch') and t.get('pch'):
         terms.append(['P', t['pch']])       # H_P arrives through the compiler's -include
+    if st.get('broken') == tid:
+        L.append('this translation unit does not compile (work in progress);')
     L.append('unsigned f%s(void) { return %s; }' % (tid, _expr(t['base'], terms)))
     if tid == '0':
         others = [k for k in sorted(st['tus'], key=int) if k != '0']
@@ -393,6 +395,25 @@ def apply(st, op):
         H[op['h']]['dir'] = op['dir']
         info['renames'].append((old, hdr_path(st, op['h'])))
         info['edited'] = old
+    elif k == 'break_tu':
+        # work in progress: a new header, included by one TU that does not compile yet
+        if op['h'] in H or st.get('broken') is not None:
+            raise ValueError('exists')
+        H[op['h']] = {'name': op['name'], 'plain': op['plain'], 'dir': op['dir'],
+                      'base': op['base'], 'inc': []}
+        T[op['t']]['inc'].append([op['h'], op['coef']])
+        st['broken'] = op['t']
+        info['edited'] = T[op['t']]['file']
+    elif k == 'unbreak_tu':
+        # the work is abandoned: include and header go away again, the TU is as it was
+        hid = op['h']
+        if st.get('broken') is None:
+            raise ValueError('not broken')
+        for x in list(H.values()) + list(T.values()):
+            x['inc'] = [[d, c] for d, c in x['inc'] if d != hid]
+        info['edited'] = hdr_path(st, hid)
+        del H[hid]
+        del st['broken']
     elif k in ('noop', 'clean'):
         pass
     elif k == 'add_source':
@@ -883,5 +904,27 @@ def gen_history(rng, st, n, p_special, allow_regen=True):
     if pending_rm is not None and pending_rm in cur['headers'] and \
        not any(includers(cur, pending_rm)):
         hist.append({'op': 'rm_header', 'h': pending_rm})
+    if st.get('work_in_progress', True):
+        # a build that FAILS (a new header plus a TU that does not compile yet), then the work
+        # is thrown away again: the failed build must not leave anything behind that stops the
+        # next one
+        counters['h'] += 1
+        tids = [t for t in sorted(cur['tus'], key=int)]
+        op = {'op': 'break_tu', 't': rng.choice(tids), 'h': str(counters['h']),
+              'name': 'wip%d.h' % counters['h'], 'plain': 'wip%d.h' % counters['h'],
+              'dir': 0, 'base': rng.randint(1, 99), 'coef': rng.randint(1, 5)}
+        at = rng.randrange(len(hist) + 1)
+        # (applied on the state reached at that point: replay the prefix)
+        try:
+            pre = st
+            for o in hist[:at]:
+                pre, _ = apply(pre, o)
+            mid, _ = apply(pre, op)
+            post, _ = apply(mid, {'op': 'unbreak_tu', 'h': op['h']})
+            for o in hist[at:]:
+                post, _ = apply(post, o)
+            hist[at:at] = [op, {'op': 'unbreak_tu', 'h': op['h']}]
+        except (ValueError, KeyError):
+            pass
     hist.append({'op': 'clean'})
     return hist
